@@ -21,6 +21,7 @@ BinOps == {"mul", "div", "mod", "add", "sub", "lt", "gt", "le", "ge",
 NoIJ == [t |-> "none"]
 
 Def(v) == IF v.t = "undef" THEN Err ELSE v
+DefU(v) == IF v.t = "undef" THEN Unspec ELSE v
 
 Lookup(vars, name) == IF name \in DOMAIN vars THEN vars[name] ELSE Undef
 
@@ -41,14 +42,14 @@ AddV(x, y) ==
        IF Printable(x) /\ Printable(y) THEN S(ToText(x) \o ToText(y)) ELSE Unspec
   ELSE IF IsNum(x) /\ IsNum(y) THEN
        IF AddOK(x) /\ AddOK(y) THEN F(AlignA(x, y) + AlignB(x, y), Max2(Sh(x), Sh(y))) ELSE Unspec
-  ELSE Err
+  ELSE Unspec          \* arithmetic on non-numbers: the property makes no claim
 
 SubV(x, y) ==
   IF x.t = "int" /\ y.t = "int" THEN
        IF IntAddOK(x.v) /\ IntAddOK(y.v) THEN I(x.v - y.v) ELSE Unspec
   ELSE IF IsNum(x) /\ IsNum(y) THEN
        IF AddOK(x) /\ AddOK(y) THEN F(AlignA(x, y) - AlignB(x, y), Max2(Sh(x), Sh(y))) ELSE Unspec
-  ELSE Err
+  ELSE Unspec
 
 MulV(x, y) ==
   IF x.t = "int" /\ y.t = "int" THEN
@@ -57,10 +58,10 @@ MulV(x, y) ==
        IF ~(MulOK(x) /\ MulOK(y)) THEN Unspec
        ELSE IF Num(x) * Num(y) = 0 /\ (Num(x) < 0 \/ Num(y) < 0) THEN Unspec   \* negative zero
        ELSE F(Num(x) * Num(y), Sh(x) + Sh(y))
-  ELSE Err
+  ELSE Unspec
 
 DivV(x, y) ==
-  IF ~(IsNum(x) /\ IsNum(y)) THEN Err
+  IF ~(IsNum(x) /\ IsNum(y)) THEN Unspec
   ELSE IF ~(MulOK(x) /\ MulOK(y)) THEN Unspec
   ELSE IF Num(y) = 0 THEN Unspec                       \* division by zero: no claim
   ELSE IF Num(x) = 0 THEN (IF Num(y) < 0 THEN Unspec ELSE F(0, 0))
@@ -75,7 +76,7 @@ DivV(x, y) ==
 ModV(x, y) ==
   IF x.t = "int" /\ y.t = "int" THEN
        IF y.v = 0 THEN Unspec ELSE I(TruncMod(x.v, y.v))
-  ELSE Err
+  ELSE Unspec
 
 CmpV(op, x, y) ==
   IF ~(IsNum(x) /\ IsNum(y)) THEN Err
@@ -89,7 +90,7 @@ EqV(x, y, neg) ==
 NegV(x) ==
   CASE x.t = "int" -> IF IntAddOK(x.v) THEN I(-x.v) ELSE Unspec
     [] x.t = "float" -> IF x.num = 0 THEN Unspec ELSE F(-x.num, x.sh)
-    [] OTHER -> Err
+    [] OTHER -> Unspec
 
 \* floor of a number
 FloorN(x) == Num(x) \div Pow2(Sh(x))
@@ -117,54 +118,54 @@ FirstBad(args) ==
 ApplyFn(name, a) ==
   LET n == Len(a) IN
   CASE name = "isNonnull" ->
-         IF n # 1 THEN Err ELSE B(a[1].t \notin {"null", "undef"})
+         IF n # 1 THEN Unspec ELSE B(a[1].t \notin {"null", "undef"})
     [] name = "length" ->
-         IF n # 1 THEN Err ELSE IF a[1].t = "list" THEN I(Len(a[1].v)) ELSE Err
+         IF n # 1 THEN Unspec ELSE IF a[1].t = "list" THEN I(Len(a[1].v)) ELSE Unspec
     [] name = "keys" ->
-         IF n # 1 THEN Err
-         ELSE IF a[1].t # "map" THEN Err
+         IF n # 1 THEN Unspec
+         ELSE IF a[1].t # "map" THEN Unspec
          ELSE IF Cardinality(DOMAIN a[1].v) > 1 THEN Unspec     \* order unspecified
          ELSE L([i \in 1..Cardinality(DOMAIN a[1].v) |-> S(CHOOSE k \in DOMAIN a[1].v : TRUE)])
     [] name = "augmentMap" ->
-         IF n # 2 THEN Err
-         ELSE IF a[1].t = "map" /\ a[2].t = "map" THEN M(a[2].v @@ a[1].v) ELSE Err
+         IF n # 2 THEN Unspec
+         ELSE IF a[1].t = "map" /\ a[2].t = "map" THEN M(a[2].v @@ a[1].v) ELSE Unspec
     [] name = "round" ->
-         IF n \notin {1, 2} THEN Err
-         ELSE IF ~IsNum(a[1]) THEN Err
-         ELSE IF n = 2 /\ a[2].t # "int" THEN Err
+         IF n \notin {1, 2} THEN Unspec
+         ELSE IF ~IsNum(a[1]) THEN Unspec
+         ELSE IF n = 2 /\ a[2].t # "int" THEN Unspec
          ELSE IF ~AddOK(a[1]) THEN Unspec
          ELSE IF n = 1 \/ a[2].v = 0 THEN I(RoundN(a[1]))
          ELSE IF a[2].v < 0 THEN Unspec
          ELSE IF Sh(a[1]) <= a[2].v /\ a[2].v <= 6 THEN F(Num(a[1]), Sh(a[1])) ELSE Unspec
     [] name = "floor" ->
-         IF n # 1 THEN Err ELSE IF ~IsNum(a[1]) THEN Err
+         IF n # 1 THEN Unspec ELSE IF ~IsNum(a[1]) THEN Unspec
          ELSE IF ~AddOK(a[1]) THEN Unspec ELSE I(FloorN(a[1]))
     [] name = "ceiling" ->
-         IF n # 1 THEN Err ELSE IF ~IsNum(a[1]) THEN Err
+         IF n # 1 THEN Unspec ELSE IF ~IsNum(a[1]) THEN Unspec
          ELSE IF ~AddOK(a[1]) THEN Unspec ELSE I(CeilN(a[1]))
     [] name \in {"min", "max"} ->
-         IF n # 2 THEN Err ELSE IF ~(IsNum(a[1]) /\ IsNum(a[2])) THEN Err
+         IF n # 2 THEN Unspec ELSE IF ~(IsNum(a[1]) /\ IsNum(a[2])) THEN Unspec
          ELSE IF ~(AddOK(a[1]) /\ AddOK(a[2])) THEN Unspec
          ELSE LET c == NumCmp(a[1], a[2])
                   w == IF name = "min" THEN (IF c <= 0 THEN a[1] ELSE a[2])
                        ELSE (IF c >= 0 THEN a[1] ELSE a[2]) IN
               IF a[1].t = "int" /\ a[2].t = "int" THEN w
               ELSE IF Num(w) = 0 /\ c = 0 THEN Unspec ELSE F(Num(w), Sh(w))
-    [] name = "randomInt" -> IF n # 1 THEN Err ELSE Unspec
+    [] name = "randomInt" -> IF n # 1 THEN Unspec ELSE Unspec
     [] name = "strContains" ->
-         IF n # 2 THEN Err
-         ELSE IF a[1].t = "str" /\ a[2].t = "str" THEN B(StrContains(a[1].v, a[2].v)) ELSE Err
+         IF n # 2 THEN Unspec
+         ELSE IF a[1].t = "str" /\ a[2].t = "str" THEN B(StrContains(a[1].v, a[2].v)) ELSE Unspec
     [] name = "range" ->
-         IF n \notin {1, 2, 3} THEN Err
-         ELSE IF \E i \in 1..n : a[i].t # "int" THEN Err
+         IF n \notin {1, 2, 3} THEN Unspec
+         ELSE IF \E i \in 1..n : a[i].t # "int" THEN Unspec
          ELSE LET lo == IF n = 1 THEN 0 ELSE a[1].v
                   hi == IF n = 1 THEN a[1].v ELSE a[2].v
                   st == IF n = 3 THEN a[3].v ELSE 1 IN
               IF st <= 0 THEN Unspec
               ELSE IF ~(IntMulOK(lo) /\ IntMulOK(hi) /\ IntMulOK(st)) \/ hi - lo > 64 THEN Unspec
               ELSE L(RangeSeq(lo, hi, st))
-    [] name = "hasData" -> IF n # 0 THEN Err ELSE B(TRUE)
-    [] OTHER -> Err      \* unknown function: runtime error
+    [] name = "hasData" -> IF n # 0 THEN Unspec ELSE B(TRUE)
+    [] OTHER -> Unspec   \* unknown function
 
 LoopFns == {"index", "isFirst", "isLast"}
 
@@ -186,13 +187,12 @@ Access(ref, acc, i, env) ==
       idx == IF a.k = "idx" THEN a.idx ELSE IF kind = "idx" THEN kv.v ELSE 0
   IN
   IF IsBad(kv) THEN kv
-  ELSE IF kv.t = "undef" THEN Err                          \* undefined has no text to use as a key
+  ELSE IF kv.t = "undef" THEN Unspec                       \* undefined used as a key: no claim
   ELSE IF ref.t \in {"undef", "null"} THEN (IF a.ns THEN Null ELSE Err)
   ELSE IF ref.t = "list" THEN
        CASE kind = "idx" -> IF idx < 0 THEN Unspec
                             ELSE Access(IF idx < Len(ref.v) THEN ref.v[idx + 1] ELSE Undef, acc, i + 1, env)
-         [] kind = "key" -> Err
-         [] OTHER -> Unspec
+         [] OTHER -> Unspec                                  \* a list accessed by name: no claim
   ELSE IF ref.t = "map" THEN
        CASE kind = "key" -> IF key = "" THEN Unspec
                             ELSE Access(IF key \in DOMAIN ref.v THEN ref.v[key] ELSE Undef, acc, i + 1, env)
@@ -216,7 +216,7 @@ Eval(e, env) ==
          ELSE M([k \in {e.items[i].key : i \in 1..Len(e.items)} |->
                    xs[CHOOSE i \in 1..Len(e.items) : e.items[i].key = k]])
     [] e.k = "var" ->
-         LET base == IF e.name = "ij" THEN (IF env.ij.t = "none" THEN Err ELSE env.ij)
+         LET base == IF e.name = "ij" THEN (IF env.ij.t = "none" THEN Unspec ELSE env.ij)
                      ELSE Lookup(env.vars, e.name) IN
          IF IsBad(base) THEN base ELSE Access(base, e.acc, 1, env)
     [] e.k = "global" ->
@@ -235,11 +235,11 @@ Eval(e, env) ==
          ELSE IF e.name = "length" /\ Len(e.args) = 1 /\ e.args[1].k = "fn" /\ e.args[1].name = "keys"
                  /\ Len(e.args[1].args) = 1 THEN
               LET m == Eval(e.args[1].args[1], env) IN
-              IF IsBad(m) THEN m ELSE IF m.t = "map" THEN I(Cardinality(DOMAIN m.v)) ELSE Err
+              IF IsBad(m) THEN m ELSE IF m.t = "map" THEN I(Cardinality(DOMAIN m.v)) ELSE Unspec
          ELSE LET xs == EvalSeq(e.args, env, 1) b == FirstBad(xs) IN
               IF IsBad(b) THEN b ELSE ApplyFn(e.name, xs)
     [] e.k = "neg" ->
-         LET a == Def(Eval(e.a, env)) IN IF IsBad(a) THEN a ELSE NegV(a)
+         LET a == DefU(Eval(e.a, env)) IN IF IsBad(a) THEN a ELSE NegV(a)
     [] e.k = "not" ->
          LET a == Eval(e.a, env) IN IF IsBad(a) THEN a ELSE B(~Truthy(a))
     [] e.k = "and" ->
@@ -261,9 +261,12 @@ Eval(e, env) ==
          IF IsBad(a) THEN a
          ELSE LET b == Eval(e.b, env) IN IF IsBad(b) THEN b ELSE EqV(a, b, e.k = "ne")
     [] e.k \in {"mul", "div", "mod", "add", "sub", "lt", "gt", "le", "ge"} ->
-         LET a == Def(Eval(e.a, env)) IN
+         \* an undefined operand: ordering it is an error (it is not a number);
+         \* arithmetic on it is outside the property's claims
+         LET ord == e.k \in {"lt", "gt", "le", "ge"}
+             a == IF ord THEN Def(Eval(e.a, env)) ELSE DefU(Eval(e.a, env)) IN
          IF IsBad(a) THEN a
-         ELSE LET b == Def(Eval(e.b, env)) IN
+         ELSE LET b == IF ord THEN Def(Eval(e.b, env)) ELSE DefU(Eval(e.b, env)) IN
               IF IsBad(b) THEN b
               ELSE CASE e.k = "add" -> AddV(a, b)
                      [] e.k = "sub" -> SubV(a, b)
